@@ -47,6 +47,12 @@ T = {
  "C16": ("property-based testing (byte-stream PBT, definition-based refint oracle, constructed primes/pseudoprimes) + libFuzzer in thorough",
          "Generated-input search over fac/2fac/mfac/primorial, bin_ui/bin_uiui (each algorithm region, negative and multi-limb n), fib/fib2/lucnum/lucnum2, remove, and the primality family on all small n, type-boundary neighbourhoods, Carmichael numbers, strong pseudoprimes, close semiprimes and special-form large primes/composites; values are decided by definition in the reference bignum and primality by deterministic Miller-Rabin (n < 2^81) or construction. Checks are exactly the stated ones (never 0 for a prime, never 2 for a composite, 0 at >=25 reps, nextprime result > n with no prime between). Exploration with an exact oracle.",
          "DESIGN.md section 5 C16"),
+ "C13": ("property-based testing (byte-stream PBT, hand-built mpf operands, exact dyadic/rational oracle for the 2^(2-p) bound and the exactness clause) + libFuzzer in thorough",
+         "Generated-input search over the mpf arithmetic, assignment, string and exact functions with destination precision chosen independently of the operand precisions (directly, via mpf_set_prec, via mpf_set_prec_raw), operands built limb by limb incl. prec+1 limbs, low zero limbs, all exponent relations and the nearly-cancelling 'x+1|000.. minus x|fff..' patterns; every result is read as an exact dyadic rational and compared with the exact value in the reference bignum: error < 2^(2-p)|exact|, equality when operands and value fit in p bits, exactness of floor/ceil/trunc/neg/abs/2exp, mpf_get_str within one unit of the last requested digit, and the format rules after every call. Two recorded known findings are excluded by predicate and replayed on every run. Exploration with an exact oracle.",
+         "DESIGN.md section 5 C13"),
+ "C17": ("property-based testing with exhaustive fault enumeration per generated stream (fopencookie fault-injecting streams, recording allocator, refint format models)",
+         "Generated values and parameters for mpz_export/import (size 1..16, order, endian, nails, every misalignment, exact-size buffers under ASan) and the raw/text stream functions, decided by byte-exact models of the documented formats and round trips; for every generated stream ALL truncation points (as end of stream and as read error) and ALL positions at which an unbuffered writer fails are enumerated: input returns 0 / the available prefix, output returns 0 (gmp_fprintf -1), no leak or allocator contract breach, destination reusable. Fault enumeration is exhaustive per stream; streams and values are sampled.",
+         "DESIGN.md section 5 C17", "fault_enumeration"),
 }
 built = [i for i in ids if i in T and (os.path.exists(os.path.join(ROOT, "props", i + ".cc")) or os.path.exists(os.path.join(ROOT, "props", i + "_run.py")))]
 checks = []
